@@ -59,7 +59,9 @@ func verifC15_SessionStep() {
 		id := uint16(verifInt("ackID", 0, 65535))
 		ack := packets.NewControlPacket(packets.Puback).(*packets.PubackPacket)
 		ack.MessageID = id
-		s.puback(ack)
+		// through the client's packet dispatch, as a PUBACK arrives from the connection (every
+		// 16-bit id may be in flight: the session numbers its packets from 0 and wraps around)
+		verifAssert(c.processPacket(ack) == nil, "puback-accepted")
 		verifAssert(len(c.writeCh) == 0, "puback-sends-nothing")
 		for i := 0; i < n; i++ {
 			_, pending := s.pending[q[i].id]
